@@ -101,9 +101,15 @@ class C18(Prop):
             '(also repeated or missing), add_rule for route prefixes over {0,1,ab,zz} (consume on/off, flag on/off, re-registration of a prefix, 3% with a "/" '
             'in the prefix), add_rule for test ids incl. None (re-registration), 2% unknown policy, status events with route None or 1-4 segments (3% with an '
             'empty segment) x 3 test ids/None x other fields, and round trips through 1-3 StreamToQueue codes popped by as many fresh consuming routers. '
-            'thorough adds all configurations with <= 2 rules x <= 3 events from a 6-event alphabet, with start/stop around or across the rules. '
+            'In half of the cases 1-3 sinks have scripted behaviour at their 1st/2nd startTestRun / stopTestRun / status: they call router.add_rule '
+            're-entrantly (with/without do_start_stop_run; fresh or already known sink; 4% bad prefix, 3% unknown policy) and/or raise; the driver '
+            'survives every exception and carries on with the script. '
+            'thorough adds all configurations with <= 2 rules x <= 3 events from a 6-event alphabet, with start/stop around or across the rules, and '
+            'every pair of one-act behaviours (7 kinds) at start/stop/status of the fallback and a rule sink over 5 histories. '
             'non-trivial = at least one rule and one status event, or a round trip; distinct = distinct input S-expression')
-    assumptions = ['Python dict semantics of the two rule tables are modelled by association lists (re-registration overwrites)',
+    assumptions = ['a scripted sink behaves plainly (records only) when it is called from inside a re-entrant add_rule, i.e. the immediate startTestRun of a rule added by another sink\'s method while a run is in progress; nesting of scripted behaviour is therefore one level deep',
+                   'Python list iteration over a list that grows (for sink in self._sinks) is modelled by an index loop over the live list, with a fuel bound proved sufficient',
+                   'Python dict semantics of the two rule tables are modelled by association lists (re-registration overwrites)',
                    'str.split("/")[0] and slicing are modelled on lists of characters',
                    'round trips are driven by the harness: it takes the dict StreamToQueue put on its queue and calls the next stage with it, as ConcurrentStreamTestSuite does']
 
@@ -113,7 +119,11 @@ class C18(Prop):
                 'segment of its route code if there is one, else the latest rule of its test id, else the fallback, else the call raises and nothing is delivered - '
                 'with every field but route_code unchanged, a consuming rule stripping exactly the first segment (None when nothing remains); for every "/"-free code '
                 'and every route code (None or any string) consume(code, prefix(code, rc)) = rc, nested to any depth; startTestRun/stopTestRun reach exactly the '
-                'registered sinks once per call, a rule added mid-run with the flag is started at once, one without the flag never. The hand-written model is tied to '
+                'registered sinks once per call - also sinks registered re-entrantly by another sink from inside its startTestRun/stopTestRun while the dispatch is under '
+                'way: each registration is reached exactly once by that dispatch and is not started by add_rule itself unless a run is in progress (the flag is set only '
+                'after the dispatch loop has completed); a sink that raises ends the dispatch there (later sinks are not called, the flag is unchanged, the exception '
+                'reaches the driver); in histories without exceptions, nested runs or double registrations every sink sees startTestRun/stopTestRun strictly alternating '
+                'beginning with a start; a rule added mid-run with the flag is started at once, one without the flag never. The hand-written model is tied to '
                 'the code by a differential check over operation scripts.',
         'note': 'trusted: Lean kernel, the model TTV/Model/StreamRouter.lean, the harness; dicts modelled as association lists, strings as character lists',
         'technique': 'Lean 4 invariant proof over operation histories (model dictionaries = latest registration in the history) plus list lemmas for the push/pop inverse; '
